@@ -65,7 +65,13 @@ def an_id(value):
         return 0
     if isinstance(value, Sentinel) and value.tag == 'A':
         return value.id
+    if isinstance(value, str) and value in STR_ANN:
+        return STR_ANN[value]
     return 99
+
+
+# annotation VALUES that are strings (given to modifiers.annotate: to be reported verbatim, never evaluated): one spells a global name
+STR_ANN = {'A1': 81, 'free text !': 82}
 
 
 # annotation ids whose TEXT is an expression that raises when a postponed annotation is evaluated
